@@ -148,11 +148,68 @@ def run_reader(stream, validate=1, parsed=True, quit=1, handler=True, labelmsm=1
             lg.propagate = old_prop
 
 
+class _FalsyCollector(list):
+    """a user error handler that is a callable OBJECT whose truth value is False (an empty collector)"""
+
+    def __init__(self, fn):
+        super().__init__()
+        self._fn = fn
+
+    def __call__(self, err):
+        return self._fn(err)
+
+    def __bool__(self):
+        return False
+
+
+class _MethodHolder:
+    def __init__(self, fn):
+        self._fn = fn
+
+    def handle(self, err):
+        return self._fn(err)
+
+
+HANDLER_KINDS = 4
+_hk = [0]
+_rc = [0]
+
+
+def _handler_object(on_err):
+    """the user's handler comes in several shapes: function, bound method, partial, falsy callable object"""
+    import functools
+
+    _hk[0] += 1
+    k = _hk[0] % HANDLER_KINDS
+    if k == 0:
+        return on_err
+    if k == 1:
+        return _MethodHolder(on_err).handle
+    if k == 2:
+        return functools.partial(on_err)
+    return _FalsyCollector(on_err)
+
+
 def _run_reader(stream, log, on_err, validate, parsed, quit, handler, labelmsm, max_calls, wrap, use_iter):
     from pyrtcm import RTCMReader
 
     proxy = RecProxy(stream, log) if wrap else stream
-    rdr = RTCMReader(proxy, validate=validate, quitonerror=quit, parsed=parsed, labelmsm=labelmsm, errorhandler=on_err if handler else None)
+    kw = {}
+    # options equal to the documented defaults are OMITTED in every other construction (a default must
+    # mean the same whatever was constructed or parsed before)
+    _rc[0] += 1
+    omit = _rc[0] % 2 == 0
+    if not (omit and validate == 1):
+        kw["validate"] = validate
+    if not (omit and quit == 1):
+        kw["quitonerror"] = quit
+    if not (omit and parsed is True):
+        kw["parsed"] = parsed
+    if not (omit and labelmsm == 1):
+        kw["labelmsm"] = labelmsm
+    if handler or not omit:
+        kw["errorhandler"] = _handler_object(on_err) if handler else None
+    rdr = RTCMReader(proxy, **kw)
     if not wrap:
         raise MachineryFailure("run_reader needs a stream it can wrap (no private attributes of the reader are touched)")
     events = []
